@@ -4,6 +4,7 @@ The data-structure invariant Inv (pyvc/inv.py) is assumed on entry and proved, c
 conjunct, on every exit - normal and exceptional - of each operation below.
 """
 from pyvc.dsl import contract, spec
+from contracts import c_validation   # noqa: F401  (contracts of the cardinality helpers used by the constructors)
 
 
 @spec
@@ -161,7 +162,7 @@ contract('odml/base.py::Sectionable.insert',
 # ---- parent setters -----------------------------------------------------------------------------
 
 contract('odml/section.py::BaseSection.parent.setter',
-         types={'self': 'BaseSection', 'new_parent': 'any'},
+         types={'self': 'BaseSection', 'new_parent': 'any'}, modular=True,
          requires='True',
          ensures=['field(self, "_parent") is new_parent'],
          may_raise={'ValueError': 'new_parent is not None',
@@ -172,7 +173,7 @@ contract('odml/section.py::BaseSection.parent.setter',
          props=('C03', 'C04', 'C06'))
 
 contract('odml/property.py::BaseProperty.parent.setter',
-         types={'self': 'BaseProperty', 'new_parent': 'any'},
+         types={'self': 'BaseProperty', 'new_parent': 'any'}, modular=True,
          requires='True',
          ensures=['field(self, "_parent") is new_parent'],
          raises={'ValueError': 'new_parent is not None and not isSec(new_parent)',
@@ -252,4 +253,35 @@ contract('odml/base.py::SmartList.__setitem__',
          on_raise='Same',
          invariants={0: 'all(item(_it, j) is replaced or item(_it, j) is value or '
                         'field(item(_it, j), "_name") != field(value, "_name") for j in range(_i))'},
+         props=('C03', 'C04', 'C06'))
+
+# ---- constructors: establish Inv (base case of the history induction), attach last ---------------
+# EXPERIMENTAL, not in any DEDUCTIVE list: symbolic execution succeeds (308 paths) but the print loop over
+# Validation(self).errors makes 253 spurious AttributeError paths under the assumed Validation contract and the
+# 15k VCs carry two copies of Inv; the constructors stay with the bounded history check (DESIGN.md 13).
+contract('odml/validation.py::Validation.__init__',
+         types={'self': 'Validation'}, inline=False, assumed=True, inv=False,
+         modifies_self=('obj', 'errors', '_handlers'),
+         requires='True',
+         ensures=['all(isVErr(item(field(self, "errors"), j)) and '
+                  '(isSec(field(item(field(self, "errors"), j), "obj")) or isProp(field(item(field(self, "errors"), j), "obj"))) '
+                  'and is_str(field(item(field(self, "errors"), j), "rank")) '
+                  'for j in range(llen(field(self, "errors"))))'],
+         raises={},
+         props=('C03', 'C06', 'C19'),
+         note='ASSUMED: Validation(obj) of a Section or Property writes only its own fields, raises nothing, and its '
+              'errors list holds ValidationError objects bound to Sections/Properties (frame part discharged under C19; '
+              'exactness of the rules is C08)')
+
+contract('odml/section.py::BaseSection.__init__',
+         constructor='BaseSection', use_modular=True,
+         types={'name': 'any', 'type': 'any', 'parent': 'any', 'definition': 'any', 'reference': 'any',
+                'repository': 'any', 'link': 'any', 'include': 'any', 'oid': 'any',
+                'sec_cardinality': 'any', 'prop_cardinality': 'any'},
+         requires='(name is None or is_str(name)) and (oid is None or is_str(oid)) and '
+                  'not is_ref(sec_cardinality) and not is_ref(prop_cardinality)',
+         ensures=['field(self, "_parent") is parent'],
+         may_raise={'ValueError': 'True', 'KeyError': 'isSec(parent) or isDoc(parent)'},
+         on_raise='Same',
+         invariants={0: 'True'},
          props=('C03', 'C04', 'C06'))
